@@ -188,6 +188,51 @@ pub fn sequential_outcomes(sc: &Scenario) -> BTreeSet<Vec<String>> {
     set
 }
 
+/// Like `sequential_outcomes`, with `then` executed after all the scenario's operations.
+pub fn sequential_outcomes_then(sc: &Scenario, then: &Op) -> BTreeSet<Vec<String>> {
+    let mut sc2 = sc.clone();
+    // a final operation after everything else = a further thread whose only operation runs last;
+    // enumerate the orders of the original scenario and append the operation to each
+    let base = sc.clone();
+    sc2.threads.clear();
+    let mut set = BTreeSet::new();
+    fn rec(sc: &Scenario, pos: &mut Vec<usize>, order: &mut Vec<(usize, usize)>, out: &mut Vec<Vec<(usize, usize)>>) {
+        let mut any = false;
+        for t in 0..sc.threads.len() {
+            if pos[t] < sc.threads[t].len() {
+                any = true;
+                order.push((t, pos[t]));
+                pos[t] += 1;
+                rec(sc, pos, order, out);
+                pos[t] -= 1;
+                order.pop();
+            }
+        }
+        if !any {
+            out.push(order.clone());
+        }
+    }
+    let mut orders = Vec::new();
+    rec(&base, &mut vec![0; base.threads.len()], &mut Vec::new(), &mut orders);
+    for o in orders {
+        let sc = base.clone();
+        let then = then.clone();
+        let s = crate::seed::on_fresh_thread(move || {
+            let db = Arc::new(FixtureDatabase::new());
+            for op in &sc.pre {
+                (op.f)(&db);
+            }
+            for (t, i) in o {
+                (sc.threads[t][i].f)(&db);
+            }
+            (then.f)(&db);
+            snap(&db)
+        });
+        set.insert(s);
+    }
+    set
+}
+
 pub fn describe(sc: &Scenario) -> serde_json::Value {
     serde_json::json!({
         "name": sc.name,
